@@ -321,3 +321,54 @@ Proof.
   - subst rj. assert (Z.to_nat ci = Z.to_nat cj); [|lia].
     eapply (proj1 (NoDup_nth_error labels) HN); [apply nth_error_Some; congruence|congruence].
 Qed.
+
+(* ---- sort=True: relabelling by a permutation of the labels keeps the factorization faithful ----
+   factorize_2d(sort=True):  argsort = multi_index.argsort()
+                             combined_codes = np.argsort(argsort)[combined_codes]   (null stays -1)
+                             multi_index = multi_index[argsort]
+   np.argsort(argsort)[g] is the position of g in argsort. *)
+From Coq Require Import Sorting.Permutation.
+
+Fixpoint pos_of (g : nat) (p : list nat) : nat :=
+  match p with [] => 0%nat | x :: t => if Nat.eqb x g then 0%nat else S (pos_of g t) end.
+
+Definition relabel (p : list nat) (labels : list (list Z)) (codes : list Z) : list Z * list (list Z) :=
+  (map (fun c => if c <? 0 then -1 else Z.of_nat (pos_of (Z.to_nat c) p)) codes,
+   map (fun j => nth j labels []) p).
+
+Lemma pos_of_nth g p : In g p -> nth_error p (pos_of g p) = Some g.
+Proof.
+  induction p as [|x t IH]; intros H; [destruct H|]. simpl. destruct (Nat.eqb x g) eqn:E.
+  - apply Nat.eqb_eq in E. now subst.
+  - destruct H as [H|H]; [subst; rewrite Nat.eqb_refl in E; discriminate|]. simpl. auto.
+Qed.
+
+Lemma map_nth_seq {A} (d : A) (l : list A) : map (fun j => nth j l d) (seq 0 (length l)) = l.
+Proof.
+  induction l as [|x t IH] using rev_ind; [reflexivity|].
+  rewrite app_length. simpl length. rewrite Nat.add_1_r, seq_S, map_app. simpl.
+  rewrite app_nth2, Nat.sub_diag by lia. simpl. f_equal.
+  transitivity (map (fun j => nth j t d) (seq 0 (length t))); [|exact IH].
+  apply map_ext_in. intros j Hj. apply in_seq in Hj. now rewrite app_nth1 by lia.
+Qed.
+
+Theorem relabel_faithful p labels rows codes :
+  Permutation p (seq 0 (length labels)) ->
+  Forall2 (code_ok labels) rows codes -> NoDup labels ->
+  let r := relabel p labels codes in
+  Forall2 (code_ok (snd r)) rows (fst r) /\ NoDup (snd r) /\ Permutation (snd r) labels.
+Proof.
+  intros Hp HF HN. cbv zeta. unfold relabel. cbn [fst snd].
+  assert (Hperm : Permutation (map (fun j => nth j labels []) p) labels).
+  { pose proof (Permutation_map (fun j => nth j labels []) Hp) as H. now rewrite map_nth_seq in H. }
+  split; [|split; auto].
+  - induction HF as [|row c rows' codes' Hc HF IH]; simpl; constructor; auto.
+    destruct Hc as [[Hn ->]|[Hn [H0 Hnth]]].
+    + left. split; auto.
+    + right. replace (c <? 0) with false by (symmetry; apply Z.ltb_ge; lia).
+      split; auto. split; [lia|]. rewrite Nat2Z.id.
+      assert (Hin : In (Z.to_nat c) p).
+      { apply (Permutation_in _ (Permutation_sym Hp)). apply in_seq. split; [lia|]. simpl. apply nth_error_Some. congruence. }
+      rewrite nth_error_map, (pos_of_nth _ _ Hin). simpl. f_equal. now apply nth_error_nth.
+  - eapply Permutation_NoDup; [apply Permutation_sym; exact Hperm | exact HN].
+Qed.
